@@ -247,7 +247,7 @@ def run(ctx):
                         "hand model Rspirv/Model/Decoder.lean (statement by statement, explicit panic sites) tied by the `dec` channel",
                         "translator decode_operand.py for the 56 generated typed requests"]
     return C.finish(ctx, level="proof", checker_cmd="lake build Rspirv.Props.C11 + #print axioms",
-                    rule="corpus (the three pre-fix panics first), then seeded buffers of every length mod 4 (random, text with NULs at word/limit boundaries, enumerant-like words, invalid UTF-8) x scripts of 1-8 requests with limits 0,1,remaining+-1,2^62,usize::MAX; distinct non-trivial = distinct response lines",
+                    rule="corpus (the three pre-fix panics first), then seeded buffers of every length mod 4 (random, text with NULs at word/limit boundaries, enumerant-like words, invalid UTF-8) x scripts of 1-8 requests with limits 0,1,remaining+-1,2^62,usize::MAX; strings of 62..262 131 bytes with limits need-1/need/need+1/usize::MAX (at offset 65 536: implementation only); every typed request on every declared enumerant, every declared bit and their neighbours; distinct non-trivial = distinct response lines",
                     trusted=["hand model Decoder.lean + differential harness (chan/dec.rs)", "translator decode_operand.py"])
 
 
